@@ -31,6 +31,11 @@ type T3 struct {
 	N int `json:"n"`
 }
 
+// T2 has a name method on the pointer receiver but is published and
+// subscribed by value: a value does not carry that method, so its events go
+// by the Go type name - on the publishing and on the subscribing side alike.
+func (*T2) EventTypeName() string { return "c12.t2.named-on-the-pointer" }
+
 // Subscriptions: id -> event type index (1 or 2).  A and B follow T1
 // independently, C follows T2.
 var subType = map[string]int{"A": 1, "B": 1, "C": 2}
